@@ -100,7 +100,7 @@ func c14AfterHand(p *Play, hd *h.Hand) {
 			return
 		}
 		pairs := []struct {
-			name         string
+			name        string
 			did, chance bool
 		}{
 			{"vpip", g.IsVPIP, g.IsVPIPChance}, {"pfr", g.IsPFR, g.IsPFRChance}, {"ats", g.IsATS, g.IsATSChance},
@@ -164,8 +164,10 @@ func init() {
 		MinNontrivial: func(tier string) int {
 			return map[string]int{"quick": 250, "thorough": 4000}[tier]
 		},
-		RequiredFeatures: func(string) []string { return []string{"fold", "re-raised-pot", "flag:3-bet", "chance:3-bet", "refused-out-of-turn:fold"} },
-		CaseTimeout:      200e9,
+		RequiredFeatures: func(string) []string {
+			return []string{"fold", "re-raised-pot", "flag:3-bet", "chance:3-bet", "refused-out-of-turn:fold"}
+		},
+		CaseTimeout: 200e9,
 		Run: func(c *h.Ctx) {
 			po := PlayOpts{
 				Hands:    6 + c.R.Intn(8),
